@@ -7,6 +7,7 @@ they hold for every operator and every element kind at once.
 -/
 import MechVerif.Lemmas.Broadcast
 import MechVerif.Model.Scalar
+import MechVerif.Gen.Kernels
 namespace MechVerif.Mat
 open MechVerif.Num
 
@@ -309,3 +310,69 @@ example : evalBinop (fun x y => Scalar.intOp .i16 .sub x y)
 example : bshape (.mat 2 3) (.mat 2 1) = some (.mat 2 3) := by decide
 example : bshape (.mat 2 3) (.mat 3 2) = none := by decide
 end MechVerif.Mat
+
+/-! ### the kernels as they are written in the source
+
+`Gen/Kernels.lean` is regenerated from machines/{math,compare,logic} and src/core/src/stdlib.rs on every run
+(`tools/extract_kernels.py`); its own theorems (`C01_kernels_as_written_ok`, `C01_fxn_rows_ok`,
+`C01_dynamic_rows_are_spec`, `C01_match_arms_ok`) are `decide` proofs over the extracted tables.  The theorems
+here connect them to the model the theorems above are about. -/
+namespace MechVerif.KernelIR
+open MechVerif.Num MechVerif.Mat
+
+def opNames : List String :=
+  ["add", "sub", "mul", "div", "mod", "pow", "eq", "neq", "gt", "gte", "lt", "lte", "and", "or", "xor"]
+
+def allFamilies : List Kernel := [.ss, .ms, .sm, .zip, .matCol, .colMat, .matRow, .rowMat]
+
+/-- the kernel macro extracted for an operator and a family -/
+def findKernel (op : String) (k : Kernel) : Option IR :=
+  (Gen.Kernels.kernels.find? (fun e => e.1 == op && decide (e.2.1 = k))).map (fun e => e.2.2.2)
+
+/-- Every operator has, for every family, an extracted kernel macro, and it is the kernel of that family. -/
+theorem C01_every_kernel_extracted_and_ok :
+    opNames.all (fun op => allFamilies.all (fun k =>
+      match findKernel op k with
+      | some ir => irOk k (commutative op) ir
+      | none => false)) = true := by decide
+
+/-- the table of an operator: what was extracted (the default is never used, by the theorem above) -/
+def tableOf (op : String) (k : Kernel) : IR := (findKernel op k).getD (expected k)
+
+/-- **The kernels as written compute the model.**  For each of the fifteen binary element-wise operators,
+    evaluating two operands with the kernel macros extracted from the source — the loop each macro runs, the way
+    it addresses its two operands, the order in which it hands them to the scalar operator — gives exactly
+    `evalBinop`, for every scalar function `f` (commutative where the source relies on it), all shapes and all
+    element values.  Hence `C01_binop_sound`, `C01_binop_rejects_incompatible` and `C01_binop_accepts` hold for
+    the kernels as written. -/
+theorem C01_written_kernels_compute_the_model {α β : Type} (op : String) (hop : op ∈ opNames)
+    (f : α → α → Except Err β) (hcomm : commutative op = true → ∀ x y, f x y = f y x) (a b : Operand α) :
+    evalBinopIR (tableOf op) f a b = evalBinop f a b := by
+  apply evalBinopIR_eq (tableOf op) (commutative op) f hcomm
+  intro k
+  have hall := C01_every_kernel_extracted_and_ok
+  rw [List.all_eq_true] at hall
+  have h1 := hall op hop
+  rw [List.all_eq_true] at h1
+  have hk : k ∈ allFamilies := by cases k <;> decide
+  have h2 := h1 k hk
+  unfold tableOf
+  cases hfk : findKernel op k with
+  | none => rw [hfk] at h2; cases h2
+  | some ir => rw [hfk] at h2; exact h2
+
+/-- the broadcast theorem, restated for the kernels as written -/
+theorem C01_written_kernels_sound {α β : Type} (op : String) (hop : op ∈ opNames)
+    (f : α → α → Except Err β) (hcomm : commutative op = true → ∀ x y, f x y = f y x) (a b : Operand α)
+    (r : Operand β) (h : evalBinopIR (tableOf op) f a b = .ok r) : IsBroadcast f a b r := by
+  rw [C01_written_kernels_compute_the_model op hop f hcomm a b] at h
+  exact C01_binop_sound f a b r h
+
+/-! non-vacuity: the extracted kernel of `sub` for scalar − matrix, and a swapped operand order is refused -/
+example : findKernel "sub" .sm = some ⟨.linear .R, (.L, .whole), (.R, .lin)⟩ := by decide
+example : irOk .sm false ⟨.linear .R, (.R, .lin), (.L, .whole)⟩ = false := by decide
+example : irOk .sm true ⟨.linear .R, (.R, .lin), (.L, .whole)⟩ = true := by decide
+example : evalBinopIR (tableOf "sub") (fun x y => Scalar.intOp .i16 .sub x y)
+    (.scalar 10) (.mat ⟨1, 3, [1, 2, 3]⟩) = .ok (.mat ⟨1, 3, [.int 9, .int 8, .int 7]⟩) := by decide
+
+end MechVerif.KernelIR
